@@ -242,6 +242,9 @@ impl<T: Socket + ?Sized> Worker<T> {
                             if window.is_full() {
                                 break;
                             }
+                        } else if received_block_number == block_number && window.is_empty() {
+                            // The last acknowledged block was sent again: our ACK was lost.
+                            self.send_packet(&Packet::Ack(block_number))?;
                         }
                     }
                     Ok(Packet::Error { code, msg }) => {
